@@ -469,7 +469,7 @@ func init() {
 		Assumptions:   []string{"when two keys of one block designate the same struct field only 'no panic' is claimed (DESIGN §6 C15)"},
 		MinNontrivial: 1000,
 		Run: func(c *core.Ctx) {
-			n := int64(c.Pick(150000, 3000000))
+			n := int64(c.Pick(150000, 30000000))
 			for i := int64(0); i < n; i++ {
 				if !c.Mine(i) {
 					continue
